@@ -150,7 +150,18 @@ def treeOp (args : List String) : String :=
   let (s, _, rs, ds, us) := (calls opsStr img img2).foldl step (s0, fz0, [], [], [])
   let j (l : List String) := if l.isEmpty then "-" else ",".intercalate l
   let jd (l : List String) := if l.isEmpty then "-" else (if verbose then " # " else ",").intercalate l
-  s!"res={j rs}\tused={j us}\tsteps={jd ds}\tfinal={listingStr io s}\ttable={nonzero s.m 2 (max + 1)}"
+  -- `hyp=1`: also report whether this volume meets the hypotheses of the tree theorems
+  -- (`TGeomOk`, 64 ≤ bpc, fuel, and `TInv` / `TFit` of the initial state, by their executable forms)
+  let hyp :=
+    if argNatD args "hyp" == 1 then
+      let geomOk := decide (0 < io.bpc) && (List.range lim).all (fun c => !(k.isEOC c)) && decide (lim ≤ max) &&
+        decide (g.rootOff + 32 * g.rootCap ≤ io.start + io.dataStart) && decide (64 ≤ io.bpc) && decide (lim - 2 ≤ fuel)
+      let inv0 := invB k lim s0.m (chainOwner s0.chain ++ kidsOwners s0.kids)
+      let fit0 := if s0.chain.isEmpty then decide (dirSlots g g.rootBase s0.kids ≤ g.rootCap)
+        else decide (s0.chain.length = dirNeed g g.rootBase s0.kids)
+      s!"\thyp={if geomOk then 1 else 0}{if inv0 then 1 else 0}{if fit0 then 1 else 0}"
+    else ""
+  s!"res={j rs}\tused={j us}\tsteps={jd ds}\tfinal={listingStr io s}\ttable={nonzero s.m 2 (max + 1)}{hyp}"
 
 /-- maximal runs of non-zero bytes of `d` in [0, total) as "off:len" -/
 def nonzeroRuns (d : Dev) (total : Nat) : List String :=
